@@ -39,12 +39,13 @@ func guardTableOf(p *core.Prog) map[string]map[string][]string {
 			if !ok {
 				continue
 			}
+			n := core.NamedOf(tn.Type()) // canonical (role) name where one is registered
 			cur := ""
 			for i := 0; i < st.NumFields(); i++ {
 				f := st.Field(i)
 				ts := core.TypeStr(f.Type())
 				if ts == "sync.Mutex" || ts == "sync.RWMutex" {
-					cur = f.Name()
+					cur = core.FieldName(st, i)
 					if out[pkgS+"."+n] == nil {
 						out[pkgS+"."+n] = map[string][]string{}
 					}
@@ -52,7 +53,7 @@ func guardTableOf(p *core.Prog) map[string]map[string][]string {
 					continue
 				}
 				if cur != "" {
-					out[pkgS+"."+n][cur] = append(out[pkgS+"."+n][cur], f.Name())
+					out[pkgS+"."+n][cur] = append(out[pkgS+"."+n][cur], core.FieldName(st, i))
 				}
 			}
 		}
@@ -153,7 +154,7 @@ func c05(c *core.Ctx) {
 			st, _ := nt.Underlying().(*types.Struct)
 			have := map[string]bool{}
 			for i := 0; st != nil && i < st.NumFields(); i++ {
-				have[st.Field(i).Name()] = true
+				have[core.FieldName(st, i)] = true
 			}
 			for lk, fs := range locks {
 				if !have[lk] {
@@ -168,8 +169,8 @@ func c05(c *core.Ctx) {
 			// a mutex field that is not in the table is a new, undocumented lock
 			for i := 0; st != nil && i < st.NumFields(); i++ {
 				ts := core.TypeStr(st.Field(i).Type())
-				if (ts == "sync.Mutex" || ts == "sync.RWMutex") && locks[st.Field(i).Name()] == nil && false {
-					c.Fail(tk+"."+st.Field(i).Name()+":untabled-lock", st.Field(i).Pos(), "mutex field not in the guarded-by table")
+				if (ts == "sync.Mutex" || ts == "sync.RWMutex") && locks[core.FieldName(st, i)] == nil && false {
+					c.Fail(tk+"."+core.FieldName(st, i)+":untabled-lock", st.Field(i).Pos(), "mutex field not in the guarded-by table")
 				}
 			}
 		}
@@ -196,7 +197,7 @@ func c05(c *core.Ctx) {
 				if st == nil {
 					return
 				}
-				fname := st.Field(fa.Field).Name()
+				fname := core.FieldName(st, fa.Field)
 				lock, guarded := lockOf[tn+"."+fname]
 				if !guarded {
 					return
